@@ -147,10 +147,13 @@ def run(chk):
         chk.count(["calls", t["script"], [[e["a"], e["mutate"]] for e in t["ev"]]], nontrivial=len(t["ev"]) >= 2)
     # ---------------- hash-seed matrix
     items = [c for c in corpus if len(c["sql"]) < 4000]
+    items.append({"sql": "insert into s.t select * from s.a join s.b on s.a.i = s.b.i", "dialect": "ansi", "metadata": {"s.a": ["i", "x"], "s.b": ["i", "y"]},
+                  "origin": "pinned"})
     items += inputs.script_items(chk, 300 if quick else 3000, chk.seed + 2)
     if quick:
+        pinned = [x for x in items if x.get("origin") == "pinned"]
         rnd.shuffle(items)
-        items = items[:500]
+        items = pinned + [x for x in items if x.get("origin") != "pinned"][:500]
     seeds = [0, 1, 2, 3] if quick else list(range(32))
     drv = os.path.join(chk.work, "seed_driver.py")
     open(drv, "w").write(SEED_DRIVER)
